@@ -414,10 +414,25 @@ def _work(item):
 
 # --------------------------------------------------------------------------------------------------
 
+_SEAM_ERR = []
+
+
 def _seam_points(ctx, n):
+    """Sphere points as generated by the kernel, through the harness TU.  The seam depends on the names/signatures of
+    static functions of sasa.cpp; if a refactoring breaks it the check must not fail: the comparison is skipped, said so
+    in the evidence, and everything else (which only uses the public API) still runs."""
     import ctypes
     from vlib import build
-    so = build.build_kernlib("sasaseam", ctx.repo, "rel")
+    if _SEAM_ERR:
+        return None
+    try:
+        so = build.build_kernlib("sasaseam", ctx.repo, "rel")
+    except Exception as e:  # noqa: BLE001
+        _SEAM_ERR.append(str(e)[-300:])
+        print("WARNING kernel seam sasaseam does not build against this tree; point-set comparison skipped")
+        ctx.assume("kernel seam vlib/kern/sasaseam.cpp did not compile against the tree (internal signatures changed): "
+                   "the kernel's sphere-point set was not compared directly; all other comparisons use the public API")
+        return None
     lib = ctypes.CDLL(so)
     out = np.zeros((n, 3), np.float32)
     lib.seam_sphere_points(out.ctypes.data_as(ctypes.c_void_p), ctypes.c_int(n))
@@ -441,7 +456,10 @@ def run(ctx):
     disc = {}
     for n in N_POINTS:
         mine = sr.sasa_sphere_points(n)
-        kern = _seam_points(ctx, n).astype(np.float64)
+        kern = _seam_points(ctx, n)
+        if kern is None:
+            continue
+        kern = kern.astype(np.float64)
         e = float(np.abs(mine - kern).max()) / sr.EPS32
         pt_err = max(pt_err, e / 4.0)
         n_eval += 1
@@ -523,6 +541,8 @@ def replay(ctx, rep):
         return abs(_ATOMIC_RADII.get(rep["sym"], -1) - sr.BONDI[rep["sym"]]) <= 1e-12
     if rep.get("kind") == "points":
         n = rep["n"]
+        if _seam_points(ctx, n) is None:
+            return True
         a = float(np.abs(sr.sasa_sphere_points(n) - _seam_points(ctx, n)).max()) / sr.EPS32
         b = float(np.abs(sr.sasa_sphere_points(n) - _seam_points(ctx, n)).max()) / sr.EPS32
         assert a == b
